@@ -217,9 +217,8 @@ def late_binding(ctx, files: Set[str]) -> int:
 
 
 def after_run(ctx) -> None:
+    # the files the property is anchored in (properties.jsonl); the files merely consulted by a package-wide analysis are not its business
     files = set(anchors(ctx.prop))
-    for k in ctx.functions_analysed:
-        files.add(k.split("::", 1)[0])
     files = {f for f in files if f.startswith(PKG)}
     try:
         late_binding(ctx, files)
